@@ -37,7 +37,7 @@ structure Hole where
   template : List Char
   expr : List Char
   ctx : HoleCtx
-  next : List Char     -- first character of the literal that follows ([] if none / not a literal)
+  next : List Char     -- first two characters of the literal that follows ([] if none / not a literal)
   deriving DecidableEq, Repr
 
 def feed (st : Option LexSt) (cs : List Char) : Option LexSt :=
@@ -48,7 +48,7 @@ def feed (st : Option LexSt) (cs : List Char) : Option LexSt :=
       | .error _ => none) st
 
 def nextLit : List (Bool × String) → List Char
-  | (false, t) :: _ => t.toList.take 1
+  | (false, t) :: _ => t.toList.take 2
   | _ => []
 
 def holesGo (name : List Char) : Option LexSt → List (Bool × String) → List Hole
